@@ -292,6 +292,59 @@ def setCore (c : Cfg) (t p : Nat) (d : PDecl) (old : Val) (v : Option Val) (rl :
       else (.raised .type_, w, [])
     else (.ok, applyRelink c t p rl (store t p v w), [(p, v)])
 
+/-! ### the same setter, statement by statement
+
+`setCore` above is written as one expression whose rejecting branches return the world they were
+given.  To make *the order of the statements* the subject of C02, here is the same code as a list of
+statements executed one after the other on a world that is **not rolled back** when a statement
+raises (Python has no rollback): `validate` and `guard` may raise, `store` and `relink` change the
+world.  `Lemmas.setCore_is_code_order` proves that `setCore` is this machine run on `codeOrder`. -/
+
+inductive Stage | validate | guard | store | relink
+  deriving Repr, DecidableEq
+
+def Stage.isCheck : Stage → Bool
+  | .validate | .guard => true
+  | _ => false
+
+structure SetArgs where
+  t : Nat
+  p : Nat
+  d : PDecl
+  old : Val
+  v : Val
+  rl : Relink
+  editConst : Bool
+
+/-- one statement; state = (world, "the guard lets the store happen"); an exception carries the
+world as it is at that moment -/
+def runStage (c : Cfg) (a : SetArgs) : Stage → World × Bool → Except (Err × World) (World × Bool)
+  | .validate, (w, b) => if a.d.valid a.v then .ok (w, b) else .error (.value, w)
+  | .guard, (w, b) =>
+    if a.d.readonly then .error (.type_, w)
+    else if a.d.constant && !a.editConst then
+      (if identical a.v a.old then .ok (w, false) else .error (.type_, w))
+    else .ok (w, b)
+  | .store, (w, b) => .ok (if b then store a.t a.p a.v w else w, b)
+  | .relink, (w, b) => .ok (applyRelink c a.t a.p a.rl w, b)
+
+def runStages (c : Cfg) (a : SetArgs) : List Stage → World × Bool → Except (Err × World) (World × Bool)
+  | [], s => .ok s
+  | st :: rest, s =>
+    match runStage c a st s with
+    | .ok s' => runStages c a rest s'
+    | .error e => .error e
+
+/-- the order of the code since fix a2a2c2a -/
+def codeOrder : List Stage := [.validate, .guard, .store, .relink]
+/-- the order before it: the link change ran first -/
+def preFixOrder : List Stage := [.relink, .validate, .guard, .store]
+
+def setStaged (c : Cfg) (a : SetArgs) (order : List Stage) (w : World) : Res × World × List (Nat × Val) :=
+  match runStages c a order (w, true) with
+  | .ok (w', _) => (.ok, w', [(a.p, a.v)])
+  | .error (e, w') => (.raised e, w', [])
+
 /-- src: Parameter.__set__ lines before `_validate`, instance route (`syncing` false):
 `_resolve_ref`, and which link change to defer -/
 def resolveForSet (c : Cfg) (d : PDecl) (linked : Bool) (rhs : Rhs) (w : World) : Option (Option Val × Relink) :=
